@@ -432,10 +432,6 @@ def search_beta(ctx, rng, budget):
                 sel |= (th >= a) & (th <= b)
         if len(set(np.round(np.cos(th[sel]) ** 2, 9))) < 3:
             continue
-        # what the implementation selects: it intersects the ranges (recorded finding)
-        isel = np.ones(len(th), bool)
-        for (a, b) in (tr or []):
-            isel &= (th >= a) & (th <= b)
         I = A * (1 + beta * P2(np.cos(th)))
         mode = ['reject', 'raw', 'bound'][rng.integers(3)]
         at_limit = beta in (-1.0, 2.0)
@@ -452,21 +448,6 @@ def search_beta(ctx, rng, budget):
             except Exception as e:     # noqa
                 return ('exception', type(e).__name__)
 
-        def same(o1, o2):
-            if o1[0] != o2[0]:
-                return False
-            if o1[0] == 'exception':
-                return o1[1] == o2[1]
-            return (np.isnan(o1[1]) and np.isnan(o2[1])) or abs(o1[1] - o2[1]) <= 1e-9
-
-        starved = False
-        if tr is not None and len(tr) == 2 and not np.array_equal(isel, sel):
-            # the observed outcome is what fitting the intersection gives, while
-            # fitting the union (the documented meaning) gives beta
-            got = outcome(th, I, tr)
-            uni = outcome(th[sel], I[sel], None, 'raw')
-            starved = (same(got, outcome(th[isel], I[isel], None))
-                       and uni[0] == 'value' and abs(uni[1] - beta) <= 1e-2)
         try:
             with warnings.catch_warnings():
                 warnings.simplefilter('ignore')
@@ -477,15 +458,16 @@ def search_beta(ctx, rng, budget):
                 key = 'C14:anisotropy:%s:mode=%s:theta_ranges=%s:%s' % (
                     'nan' if not np.isfinite(b_) else 'inaccurate', mode, trk,
                     'beta-at-physical-limit' if at_limit else 'beta-inside')
-                if at_limit and mode == 'reject' and not np.isfinite(b_):
-                    key = 'C14:anisotropy:reject-nan-at-physical-limit'
-                if starved:
-                    key = 'C14:anisotropy:theta_ranges-intersected-not-united'
+                if at_limit and mode == 'reject' and np.isnan(b_):
+                    # the recorded finding, matched precisely: noiseless curve, beta exactly at a
+                    # physical limit, default mode 'reject' returns nan although the unfiltered
+                    # fit (mode 'raw') is within 1e-5 of the limit, just outside [-1, 2]
+                    raw = outcome(th, I, tr, 'raw')
+                    if raw[0] == 'value' and abs(raw[1] - beta) <= 1e-5 and (raw[1] > 2 or raw[1] < -1):
+                        key = 'C14:anisotropy:reject-nan-at-physical-limit'
         except Exception as e:     # noqa
             what = 'raises %s (%s) for theta_ranges %s' % (type(e).__name__, e, trk)
             key = 'C14:anisotropy:exception:%s:theta_ranges=%s' % (type(e).__name__, trk)
-            if starved:
-                key = 'C14:anisotropy:theta_ranges-intersected-not-united'
         if what:
             params = dict(theta=th.tolist(), beta=beta, A=A, theta_ranges=tr, mode=mode, tol=tol)
             hits.append(Hit('anisotropy-parameter', key, 'anisotropy_parameter ' + what,
